@@ -283,4 +283,5 @@ pub fn run(ctx: &mut Ctx) {
     }
     crate::spaces::render_probes(ctx, &OPS);
     crate::spaces::width_probes(ctx);
+    crate::spaces::type_grid_probes(ctx, &OPS);
 }
